@@ -104,6 +104,13 @@ pub enum G {
     /// input (a slice of tokens, wrapped the way the outer input is wrapped so that span types agree),
     /// on which `inner` must match completely. Kinds with the `nest` capability only (srcsim).
     Nested(Box<G>, u8),
+    /// custom parser over the by-value token API of ValueInput: peek() must equal `a`, then skip(),
+    /// then (if the next token is `a` too) next(); reports what it saw and the span
+    ValApi(u8),
+    /// custom parsers over capability-specific InputRef methods: kind 0 (BorrowInput) = peek_ref then
+    /// next_ref (+ a second peek_ref); kind 1 (SliceInput) = consume 1..3 tokens equal to `a`, then
+    /// slice(c0..c1) and slice_since(c0..) between cursors taken by the parser itself
+    CapApi(u8, u8),
 }
 
 pub const N_UN: u8 = 7;
@@ -208,6 +215,8 @@ impl<'r> Gen<'r> {
             }
             let k = self.rng.below(if self.cfg.allow_borrow || self.cfg.allow_exact || self.cfg.allow_slice { 16 } else { 12 });
             let g = match k {
+                12 if self.cfg.allow_borrow && self.rng.chance(1, 2) => G::CapApi(0, self.sym()),
+                15 if self.cfg.allow_slice && self.rng.chance(1, 2) => G::CapApi(1, self.sym()),
                 12 | 13 if self.cfg.allow_borrow => G::AnyRef,
                 14 if self.cfg.allow_borrow => G::SelectRef(self.symset()),
                 15 if self.cfg.allow_exact && !consuming => G::SpanFrom,
@@ -219,6 +228,7 @@ impl<'r> Gen<'r> {
                     G::JustSeq((0..n).map(|_| self.sym()).collect())
                 }
                 5 if self.cfg.value_prims && self.rng.chance(1, 3) => G::CtxPair(self.rng.below(8) as u8),
+                5 if self.cfg.value_prims && self.rng.chance(1, 4) => G::ValApi(self.sym()),
                 5 if self.cfg.value_prims => G::Any,
                 6 if self.cfg.value_prims => G::OneOf(self.symset()),
                 7 if self.cfg.value_prims => G::NoneOf(self.symset()),
@@ -464,7 +474,7 @@ pub fn generate(rng: &mut Rng, cfg: &GenCfg) -> G {
 pub fn nullable(g: &G) -> bool {
     use G::*;
     match g {
-        Just(_) | Any | OneOf(_) | NoneOf(_) | Select(_) | Custom(..) | AnyRef | SelectRef(_) | CustomApi(..) | CtxPair(_) => false,
+        Just(_) | Any | OneOf(_) | NoneOf(_) | Select(_) | Custom(..) | AnyRef | SelectRef(_) | CustomApi(..) | CtxPair(_) | ValApi(_) | CapApi(..) => false,
         Text(k) => *k == 8,
         Nested(_, n) => *n == 0,
         JustSeq(v) => v.is_empty(),
@@ -593,7 +603,7 @@ fn leftmost_recref(g: &G) -> bool {
     use G::*;
     match g {
         RecRef => true,
-        Just(_) | JustSeq(_) | Any | OneOf(_) | NoneOf(_) | Select(_) | Custom(..) | End | Empty | AnyRef | SelectRef(_) | SpanFrom | SliceFrom | CustomApi(..) | CtxPair(_) | Text(_) | Nested(..) => false,
+        Just(_) | JustSeq(_) | Any | OneOf(_) | NoneOf(_) | Select(_) | Custom(..) | End | Empty | AnyRef | SelectRef(_) | SpanFrom | SliceFrom | CustomApi(..) | CtxPair(_) | Text(_) | Nested(..) | ValApi(_) | CapApi(..) => false,
         Then(a, b) | IgnoreThen(a, b) | ThenIgnore(a, b) => leftmost_recref(a) || (nullable(a) && leftmost_recref(b)),
         Delim(i, o, c) => leftmost_recref(o) || (nullable(o) && (leftmost_recref(i) || (nullable(i) && leftmost_recref(c)))),
         PaddedBy(a, p) => leftmost_recref(p) || (nullable(p) && leftmost_recref(a)) || (nullable(p) && nullable(a) && leftmost_recref(p)),
@@ -672,7 +682,7 @@ pub fn contains(g: &G, f: &dyn Fn(&G) -> bool) -> bool {
 /// Does the grammar need ValueInput (any/one_of/none_of/select!/nested_delimiters)?
 pub fn needs_value_input(g: &G) -> bool {
     contains(g, &|x| {
-        matches!(x, G::Any | G::CtxPair(_) | G::OneOf(_) | G::NoneOf(_) | G::Select(_) | G::Not(_) | G::Lazy(_) | G::Slice(_) | G::AnyRef | G::SelectRef(_) | G::SpanFrom | G::SliceFrom | G::Text(_) | G::Padded(_) | G::Nested(..)) || matches!(x, G::Recover(_, Strat::Nested(..)))
+        matches!(x, G::Any | G::ValApi(_) | G::CapApi(..) | G::CtxPair(_) | G::OneOf(_) | G::NoneOf(_) | G::Select(_) | G::Not(_) | G::Lazy(_) | G::Slice(_) | G::AnyRef | G::SelectRef(_) | G::SpanFrom | G::SliceFrom | G::Text(_) | G::Padded(_) | G::Nested(..)) || matches!(x, G::Recover(_, Strat::Nested(..)))
     })
 }
 
@@ -762,6 +772,8 @@ pub fn sexpr(g: &G) -> String {
         SliceFrom => "slice_from".into(),
         CtxPair(f) => format!("ctx_pair#{}", f),
         CustomApi(k, a) => format!("custom_api#{}({})", k, c(*a)),
+        ValApi(a) => format!("val_api({})", c(*a)),
+        CapApi(k, a) => format!("cap_api#{}({})", k, c(*a)),
         Text(k) => format!("text#{}", ["ascii_ident", "unicode_ident", "int10", "int16", "digits36", "ws1", "inline_ws1", "newline", "ws0", "regex0", "regex1", "regex_wordboundary", "regex_line_anchor", "keyword_ab", "keyword__a7"].get(*k as usize).copied().unwrap_or("?")),
         Padded(a) => format!("(padded {})", sexpr(a)),
         Un(k, n, a) => format!("({}#{} {})", ["map_err", "map_err_with_state", "try_map_with", "with_state", "unwrapped", "with_ctx", "map_ctx"].get(*k as usize).copied().unwrap_or("un?"), n, sexpr(a)),
@@ -816,6 +828,11 @@ pub fn sample(g: &G, rng: &mut Rng, nsym: u8, out: &mut Vec<u8>, fuel: &mut i64,
             // thing in the input, so that one of its checkpoints is the end of input
             for _ in 0..rng.range(1, 5) {
                 out.push(rng.below(nsym as u64) as u8);
+            }
+        }
+        ValApi(a) | CapApi(_, a) => {
+            for _ in 0..rng.range(1, 3) {
+                out.push(*a);
             }
         }
         CustomApi(k, a) => {
@@ -1076,8 +1093,8 @@ impl Need {
 
 pub fn needs_caps(g: &G) -> Need {
     Need {
-        slice: contains(g, &|x| matches!(x, G::Slice(_) | G::SliceFrom)),
-        borrow: contains(g, &|x| matches!(x, G::AnyRef | G::SelectRef(_))),
+        slice: contains(g, &|x| matches!(x, G::Slice(_) | G::SliceFrom | G::CapApi(1, _))),
+        borrow: contains(g, &|x| matches!(x, G::AnyRef | G::SelectRef(_) | G::CapApi(0, _))),
         exact: contains(g, &|x| matches!(x, G::SpanFrom)),
         strin: contains(g, &|x| matches!(x, G::Text(_))),
         regex: contains(g, &|x| matches!(x, G::Text(k) if (9..=12).contains(k))),
@@ -1155,7 +1172,7 @@ pub fn sibling(g: &G, rng: &mut Rng, nsym: u8, is_char: bool) -> G {
                     *b = (*a + 1) % nsym.max(2);
                 }
             }
-            G::CustomApi(_, a) => *a = other(*a, rng, nsym, is_char),
+            G::CustomApi(_, a) | G::ValApi(a) | G::CapApi(_, a) => *a = other(*a, rng, nsym, is_char),
             G::Recover(_, Strat::Nested(o, c, o2, c2)) => {
                 // keep the four delimiters distinct from each other as the generator made them
                 let _ = (o, c, o2, c2);
